@@ -11,6 +11,17 @@ import core
 import gen
 
 
+# set by ./check when an anchored source file differs from the baseline fingerprint:
+# explore deeper kernel boxes ("the code changed, look harder")
+DEEP = False
+
+
+def _sz(quick, thorough, deep, tier):
+    if DEEP:
+        return deep
+    return quick if tier == "quick" else thorough
+
+
 class Result:
     def __init__(self, prop):
         self.prop = prop
@@ -250,10 +261,10 @@ def check_C05(tier, seed):
             if len(res.samples) < 3:
                 res.samples.append({"input": list(x), "forward_steps": got, "optimum": want})
     # kernels: n_advance, optimal_extra_steps / optimal_steps_binomial
-    kn = 48 if tier == "quick" else 128
+    kn = _sz(48, 128, 200, tier)
     reqs = [(f"extratab {kn} {kn + 1}", ("extratab", kn, kn + 1))]
     for traj in gen.TRAJ:
-        for n in range(0, (64 if tier == "quick" else 160) + 1):
+        for n in range(0, _sz(64, 160, 320, tier) + 1):
             reqs += [(f"nadv {n} {s} {traj}", ("nadv", n, s, traj)) for s in range(0, n + 2)]
     res.stats["kernel_values_compared"] = _kernel_compare(res, reqs)
     res.evaluations = len(xs) + len(reqs)
@@ -302,7 +313,7 @@ def check_C06(tier, seed):
     for (n, s), v in steps.items():
         if len(v) > 1:
             res.viol((f"MX {n} {s} R/D", n, 1), f"step count depends on storage / code path: {sorted(v)}")
-    kn = 48 if tier == "quick" else 110
+    kn = _sz(48, 110, 256, tier)
     reqs = [(f"memotab {kn} {kn + 1}", ("memotab", kn, kn + 1)),
             (f"optmixedtab {kn} {kn + 1}", ("optmixedtab", kn, kn + 1))]
     res.stats["kernel_values_compared"] = _kernel_compare(res, reqs)
@@ -433,7 +444,7 @@ def check_C07(tier, seed):
                 res.viol((pds, x[1], 1), f"PeriodicDiskRevolve cost {cost[pds]} below DiskRevolve optimum {cost[x[0]]}")
     # kernel tables
     kreq = []
-    L = 20 if tier == "quick" else 40
+    L = _sz(20, 40, 64, tier)
     for c in gen.COSTS:
         uf, ub, wd, rd = (int(v) for v in c.split())
         kreq.append((f"opt0 {L} 4 {uf} {ub}", ("opt0", L, 4, uf, ub)))
@@ -911,7 +922,7 @@ def check_C16(tier, seed):
             if len(res.samples) < 3:
                 res.samples.append({"input": list(d["1"]), "actions": len(a)})
     # tables: tabulated cells vs memoised planner vs the Lean models of both
-    kn = 40 if tier == "quick" else 96
+    kn = _sz(40, 96, 200, tier)
     kreq = [(f"tab {kn} {kn - 1}", ("tab", kn, kn - 1)), (f"tab 9 3", ("tab", 9, 3)), (f"tab 1 0", ("tab", 1, 0)),
             (f"memotab {kn} {kn}", ("memotab", kn, kn))]
     res.stats["kernel_values_compared"] = _kernel_compare(res, kreq)
